@@ -1,0 +1,64 @@
+//go:build verif
+
+// Contracts (machine-checked specifications) for package net (split listener),
+// read by the verifier under /verif. Comments only; compiled only with -tags verif.
+//
+// Scope: the sequential routing decision of one accepted connection and the
+// connection-type clause of the sub-listeners' Accept. Delivery through the
+// channels, Close and "reports closed" are goroutine-schedule properties and are
+// not specified here. sync.Map is a TRUSTED finite-map specification (smHasK /
+// smGetK / smHas / smGet); smWf(m, T): every key is a string and every value a
+// non-nil *T - the representation invariant of babyListeners, established by
+// NewSplitListener and preserved by GetListener.
+
+package net
+
+// nameOffered(k, protos): the registration key k is a string equal to one of the client-offered protocols
+//@ pred nameOffered(k, ps) := exists j Int :: 0 <= j && j < len(ps) && ps[j] == unboxStr(k)
+
+// The search callback of Start: stops (returns false) exactly on an entry whose name the client offered,
+// recording its listener; otherwise leaves the captured variables alone.
+//@ func net.(*SplitListener).Start$2
+//@   requires[entry] isStr(k) && dynIs(v, "net.MultiplexingListener")
+//@   nopanic[C17]
+//@   ensures[C17,* hit] !ret ==> foundListener == as(v, "net.MultiplexingListener") && nameOffered(k, clientNextProtos)
+//@   ensures[C17,* rangepure] ret ==> foundListener == old(foundListener)
+//@   ensures[C17,* miss] ret ==> !nameOffered(k, clientNextProtos)
+//@   loop 0 invariant[scan] foundListener == old(foundListener) && rangeindex + 1 >= 0 && (forall j Int :: 0 <= j && j <= rangeindex ==> clientNextProtos[j] != unboxStr(k))
+//@   modifies foundListener
+
+// IngressConn hands the connection to the sub-listener's channel (or closes it when the sub-listener is
+// closed): a goroutine-level effect, not specified.
+//@ func net.(*MultiplexingListener).IngressConn
+//@   trusted -- channel send / closed flag: schedule-level behaviour, outside sequential contracts
+
+// Start: for every accepted connection, where it goes.
+//   routed:  a connection is handed to a sub-listener only as follows - an authenticated connection (the
+//            negotiated protocol is one of this library's and not the fetch protocol) to a listener registered
+//            under a name the client offered, or, when no registered name was offered, to the one registered
+//            under __AUTH__; any other connection to the one registered under __UNAUTH__.
+//   closedwhen: a connection is closed by Start only when it is not a protocol connection, its handshake is
+//            not complete, it negotiated the fetch protocol, or no sub-listener as above is registered.
+//@ func net.(*SplitListener).Start
+//@   let m = l.babyListeners
+//@   requires[wf] l != nil && l.baseLn != nil && l.babyListeners != nil && smWf(l.babyListeners, "net.MultiplexingListener")
+//@   requires[base] l.baseLn.fetchCredsFn != nil && l.baseLn.generateServerCertificatesFn != nil && cap(l.baseLn.options) == len(l.baseLn.options)
+//@   nopanic[C17]
+//@   loop 0 invariant[serving] true
+//@   call net.(*MultiplexingListener).IngressConn assert[C17 routed] protoConn != nil && payload(arg1) == protoConn && arg0 != nil
+//@   |   && ((!knownProto(negProto(protoConn.Conn)) && smHas(m, "__UNAUTH__") && as(smGet(m, "__UNAUTH__"), "net.MultiplexingListener") == arg0)
+//@   |       || (knownProto(negProto(protoConn.Conn)) && !hasPrefix(negProto(protoConn.Conn), "v1-nodee-fetch-node-creds-")
+//@   |         && ((exists k Int :: smHasK(m, k) && nameOffered(k, clientNextProtos) && as(smGetK(m, k), "net.MultiplexingListener") == arg0)
+//@   |             || ((forall k Int :: smHasK(m, k) ==> !nameOffered(k, clientNextProtos)) && smHas(m, "__AUTH__") && as(smGet(m, "__AUTH__"), "net.MultiplexingListener") == arg0))))
+//@   call iface:net.Conn.Close assert[C17 closedwhen] !dynIs(arg0, "protocol.Conn") || !hsComplete(as(arg0, "protocol.Conn").Conn)
+//@   |   || hasPrefix(negProto(as(arg0, "protocol.Conn").Conn), "v1-nodee-fetch-node-creds-")
+//@   |   || (!knownProto(negProto(as(arg0, "protocol.Conn").Conn)) && !smHas(m, "__UNAUTH__"))
+//@   |   || (knownProto(negProto(as(arg0, "protocol.Conn").Conn)) && (forall k Int :: smHasK(m, k) ==> !nameOffered(k, clientNextProtos)) && !smHas(m, "__AUTH__"))
+//@   modifies St
+
+// Sub-listeners hand out plain TLS connections unless native connections were requested: with the flag
+// present and false, Accept never returns a *protocol.Conn.
+//@ func net.(*MultiplexingListener).Accept
+//@   requires l != nil && l.ctx != nil
+//@   nopanic[C17]
+//@   ensures[C17 plain] l.nativeConns != nil && !deref(l.nativeConns) && !IsNil(ret) ==> !dynIs(ret, "protocol.Conn")
